@@ -442,7 +442,15 @@ func genC20(r *Rng) (string, []PQuery, []string) {
 	c := func() PCol { return cols[1+r.Intn(len(cols)-1)] }
 	var qs []PQuery
 	var tags []string
+	docs := []string{"-- plain words", "-- ends with a \"quote\"", "-- a path C:\\", "-- \"\"\"triple\"\"\" inside", "-- it's 100% `fine` ${x}", "-- trailing backslash \\", "-- héllo — ü"}
 	add := func(tag, cmd, sql string) {
+		if r.Chance(35) {
+			// full-line comments under the annotation: documentation in every target language
+			sql = r.Pick(docs) + "\n" + sql
+			if r.Chance(30) {
+				sql = r.Pick(docs) + "\n" + sql
+			}
+		}
 		qs = append(qs, PQuery{Name: fmt.Sprintf("Q%d%s", len(qs), strings.Title(strings.ReplaceAll(tag, "-", ""))), Cmd: cmd, SQL: sql})
 		tags = append(tags, tag)
 	}
